@@ -3387,7 +3387,35 @@ func ruleListStateEndsWithList(c *eng.Ctx) {
 						return false
 					}
 					fr2, ok := eng.LoadOfField(f.Cond)
-					return ok && fr2.Field == "inList"
+					if !ok {
+						return false
+					}
+					if fr2.Field == "inList" {
+						return true
+					}
+					// the state saved when the list was entered, kept in a record: a field every store to which is a
+					// load of inList
+					n, all := 0, true
+					for _, g := range c.P.ModuleFuncs() {
+						if g.Pkg != in.Parent().Pkg {
+							continue
+						}
+						eng.Instrs(g, true, func(i2 ssa.Instruction) {
+							st2, ok := i2.(*ssa.Store)
+							if !ok {
+								return
+							}
+							f3, ok := eng.AsField(st2.Addr)
+							if !ok || f3.Field != fr2.Field || f3.Struct != fr2.Struct {
+								return
+							}
+							n++
+							if f4, ok := eng.LoadOfField(st2.Val); !ok || f4.Field != "inList" {
+								all = false
+							}
+						})
+					}
+					return n > 0 && all
 				})
 				c.Check(restored, R, fmt.Sprintf("%s#inList=false@%s", eng.FuncName(in.Parent()), c.P.Pos(st.Pos())), st.Pos(), "cleared where the list element that set it is left", "inList is cleared in the middle of a list (not under the test of the state at the list's entry): the items that follow in the same list are ignored by the li case and their text is lost")
 			})
